@@ -50,23 +50,43 @@ def case_key(c):
 ST_CODE = {"a": "1", "b": "2"}
 
 
-def p_event(cls, src, st, idx, mark=None):
-    """(key, value or None, json document) of the event at position idx (1-based) of stream (src, st)."""
+TPL_W = 24      # width of every value when the plugin under test is join_template
+TPL_LINES = {   # template -> (start line, continue line); go_data_race negates (its "continue" pattern ENDS the run)
+    "go_panic": ("panic: %s", "\tm.go:1 %s"),
+    "go_data_race": ("WARNING: DATA RACE %s", "================== %s"),
+}
+LETTER = {"S1": "S", "C1": "C", "O": "O", "D": "O", "B": "O", "XO": "O", "S1d": "S", "Od": "O"}
+
+
+def p_event(cls, src, st, idx, mark=None, style="re"):
+    """(key, value or None, json document) of the event at position idx (1-based) of stream (src, st).
+    style "re": the join plugin with regexps ^S / ^C; otherwise the name of the join_template template."""
     k = "%d%s%02d" % (src, st, idx)
     extra = ""
     if mark:
         extra = ',"%s":"%s"' % (tuple(mark.split("=")) if "=" in mark else (mark, "1"))
-    if cls == "NF":
+    w = PW if style == "re" else TPL_W
+    if cls in ("NF", "XN"):
         return k, None, '{"msg":"x","stream":"%s","k":"%s"%s}' % (st, k, extra)
     if cls == "NS":
-        v = "7%d%s%02d00" % (src, ST_CODE[st], idx)
+        v = ("7%d%s%02d" % (src, ST_CODE[st], idx)).ljust(w, "0")
         return k, v, '{"log":%s,"stream":"%s","k":"%s"%s}' % (v, st, k, extra)
-    if cls == "XN":
-        return k, None, '{"msg":"x","stream":"%s","k":"%s"%s}' % (st, k, extra)
-    letter = {"S1": "S", "C1": "C", "O": "O", "D": "O", "B": "O", "XO": "O"}[cls]
-    v = "%s%s|\n" % (letter, k)
-    assert len(v) == PW
-    return k, v, '{"log":"%s%s|\\n","stream":"%s","k":"%s"%s}' % (letter, k, st, k, extra)
+    letter = LETTER[cls]
+    if style == "re":
+        v = "%s%s|\n" % (letter, k)
+    else:
+        text = {"S": TPL_LINES[style][0] % k, "C": TPL_LINES[style][1] % k, "O": "hello %s" % k}[letter]
+        v = text.ljust(w - 1) + "\n"
+    assert len(v) == w, (v, w)
+    return k, v, '{"log":%s,"stream":"%s","k":"%s"%s}' % (json.dumps(v), st, k, extra)
+
+
+def sc_style(sc):
+    return "re" if sc.get("plugin", "join") == "join" else sc["templates"][0]
+
+
+def sc_pw(sc):
+    return PW if sc.get("plugin", "join") == "join" else TPL_W
 
 
 def make_scenarios(ctx, groups, n, first_id=0):
@@ -74,13 +94,14 @@ def make_scenarios(ctx, groups, n, first_id=0):
     scs = []
     for i in range(n):
         r = rng.random()
-        pre = "none" if r < 0.4 else ("discard" if r < 0.62 else ("break" if r < 0.72 else "sel"))
+        pre = "none" if r < 0.3 else ("discard" if r < 0.48 else ("break" if r < 0.56 else ("sel" if r < 0.76 else "post")))
         neg = rng.random() < 0.35
         Ms = sorted({k[2] for k in groups if k[0] == pre})
         M = rng.choice(Ms)
         pool = groups[(pre, neg, M)]
+        gate = False
         if pre == "none":
-            chain = rng.choice(["join", "join", "pass+join", "join+discard"])
+            chain = rng.choice(["join", "join", "pass+join"])
             procs = rng.choice([1, 2, 2, 4, 4])
             nstreams = rng.choice([1, 2, 3, 4])
         elif pre == "discard":
@@ -89,6 +110,13 @@ def make_scenarios(ctx, groups, n, first_id=0):
             # with D5 a processor stays parked on the stream whose run is not flushed; a single processor would
             # starve the other streams (that is C04's business), so one stream then
             nstreams = 1 if procs == 1 else rng.choice([1, 2, 3, 4])
+        elif pre == "post":
+            # the real discard plugin BEHIND the join drops marked lines and whole flushed runs; mostly with the whole
+            # stream queued before the join sees its first line (what a nested processEvent would pull in)
+            chain = "join+discard"
+            procs = rng.choice([1, 2, 4])
+            nstreams = rng.choice([1, 2, 3])
+            gate = rng.random() < 0.7
         elif pre == "sel":
             chain = rng.choice(["seljoin-mf", "seljoin-doif"])
             procs = rng.choice([1, 1, 2, 4])
@@ -103,6 +131,12 @@ def make_scenarios(ctx, groups, n, first_id=0):
         slots = [(1, "a"), (1, "b"), (2, "a"), (2, "b")]
         rng.shuffle(slots)
         streams = []
+        plugin = "join_template" if rng.random() < 0.25 else "join"
+        templates = ["go_data_race" if neg else "go_panic"]
+        style = "re" if plugin == "join" else templates[0]
+        pw = PW if plugin == "join" else TPL_W
+        if gate:
+            pool = [c for c in pool if all(p >= len(c["seq"]) for p in c["to"])] or pool
         for (src, st) in sorted(slots[:nstreams]):
             c = rng.choice(pool)
             for _ in range(3):          # prefer cases in which something is joined or timed out
@@ -118,33 +152,47 @@ def make_scenarios(ctx, groups, n, first_id=0):
                     mark = "brk"
                 elif chain.startswith("seljoin"):
                     mark = "kind=other" if cls in ("XO", "XN") else "kind=multi"
-                elif chain == "join+discard" and cls in ("O", "NF") and rng.random() < 0.4:
+                elif cls in ("S1d", "Od"):
                     mark = "drop"
                 marks.append(mark)
-                evs.append(p_event(cls, src, st, idx, mark)[2])
-            stalls = [p for p in c["to"] if p < len(c["seq"])]
-            streams.append({"src": src, "name": st, "events": evs, "stalls": stalls,
+                evs.append(p_event(cls, src, st, idx, mark, style)[2])
+            stalls = [] if gate else [p for p in c["to"] if p < len(c["seq"])]
+            streams.append({"src": src, "name": st, "events": evs, "stalls": stalls, "gate": gate,
                             "seq": c["seq"], "marks": marks, "planned_to": c["to"],
                             "delay_ms": rng.choice([0, 0, 0, 40, 80]) if pre == "sel" else 0})
-        limit = 0 if M == 0 else M * PW - rng.randrange(PW)
+        limit = 0 if M == 0 else M * pw - rng.randrange(pw)
         scs.append({"id": first_id + i, "chain": chain, "pre": pre, "procs": procs, "timeout_ms": rng.choice([10, 20, 30]),
-                    "limit": limit, "M": M, "neg": neg, "wait_ms": WAIT_MS, "streams": streams})
+                    "limit": limit, "M": M, "neg": neg, "wait_ms": WAIT_MS, "streams": streams,
+                    "plugin": plugin, "templates": templates})
     return scs
 
 
 def directed_scenarios(first_id):
     """The minimal histories of DESIGN.md section 8 for D5 and D15, always run."""
-    def stream(seq, src=1, st="a", sel=False, delay=0):
+    def stream(seq, src=1, st="a", sel=False, delay=0, gate=False, style="re"):
         evs, marks = [], []
         for idx, cls in enumerate(seq, 1):
-            mark = {"D": "drop", "B": "brk"}.get(cls)
+            mark = {"D": "drop", "B": "brk", "S1d": "drop", "Od": "drop"}.get(cls)
             if sel:
                 mark = "kind=other" if cls in ("XO", "XN") else "kind=multi"
             marks.append(mark)
-            evs.append(p_event(cls, src, st, idx, mark)[2])
+            evs.append(p_event(cls, src, st, idx, mark, style)[2])
         return {"src": src, "name": st, "events": evs, "stalls": [], "seq": seq, "marks": marks, "planned_to": [],
-                "delay_ms": delay}
+                "delay_ms": delay, "gate": gate}
     out = []
+    # the distinguishing histories of the spec mutant M_PropagateResetsBusyFirst = FALSE (Join_mutprop.cfg): the run flushed by
+    # the next event is dropped by the action behind the join while more lines of the stream are queued / follow
+    for j, (plugin, procs, gate, seq) in enumerate([
+            ("join", 1, False, ["S1d", "O"]),                         # the line that ended the run must come out
+            ("join", 1, True, ["S1d", "C1", "S1", "C1"]),             # continuation emitted alone, before its start line
+            ("join", 2, True, ["S1d", "O", "O", "S1"]),
+            ("join_template", 1, True, ["S1d", "C1", "S1", "C1"]),
+            ("join_template", 2, False, ["S1d", "NF", "O"]),
+    ]):
+        tpl = ["go_panic"]
+        out.append({"id": first_id + 70 + j, "chain": "join+discard", "pre": "post", "procs": procs, "timeout_ms": 20, "limit": 0,
+                    "M": 0, "neg": False, "wait_ms": WAIT_MS, "plugin": plugin, "templates": tpl, "directed": True,
+                    "streams": [stream(seq, gate=gate, style="re" if plugin == "join" else tpl[0])]})
     # the distinguishing histories of the spec mutant M_BusyIgnoresSelector = FALSE (Join_mutsel.cfg): an event that does not
     # satisfy the join's selector arrives inside an open run; one source, and a second source after the first has drained
     for j, (chain, procs, seqs) in enumerate([
@@ -213,15 +261,18 @@ def analyse_stream(sc, st, res, table):
     """-> (records, stats) for one stream of one pipeline run."""
     key = "%d/%s" % (st["src"], st["name"])
     seq, n = st["seq"], len(st["seq"])
-    vals = [p_event(cls, st["src"], st["name"], idx, m)[:2] for idx, (cls, m) in enumerate(zip(seq, st["marks"]), 1)]
+    pw = sc_pw(sc)
+    vals = [p_event(cls, st["src"], st["name"], idx, m, sc_style(sc))[:2]
+            for idx, (cls, m) in enumerate(zip(seq, st["marks"]), 1)]
     log = sorted([e for e in (res.get("log") or []) if e["key"] == key], key=lambda e: e["seq"])
     out = sorted([o for o in (res.get("out") or []) if o["key"] == key], key=lambda o: o["seq"])
-    base = {"level": "pipeline", "plugin": "join", "chain": sc["chain"], "procs": sc["procs"], "scenario": sc["id"],
+    base = {"level": "pipeline", "plugin": sc.get("plugin", "join"), "chain": sc["chain"], "procs": sc["procs"], "scenario": sc["id"],
             "stream": key, "seq": seq, "neg": sc["neg"], "M": sc["M"], "limit": sc["limit"],
             "break_before_join": sc["chain"] == "break+join",
             "action_before_join": {"discard+join": "discard", "break+join": "break", "pass+join": "pass",
                                    "seljoin-mf": "pass", "seljoin-doif": "pass"}.get(sc["chain"], "none"),
             "join_selector": {"seljoin-mf": "match_fields", "seljoin-doif": "do_if"}.get(sc["chain"], "none"),
+            "action_after_join": "discard" if sc["chain"] == "join+discard" else "none",
             "scenario_def": sc}
     recs = []
     stats = {"to_observed": 0, "joined": 0}
@@ -247,12 +298,12 @@ def analyse_stream(sc, st, res, table):
     cross = False
     for o in obs:
         if o["has_log"] and o["is_str"]:
-            toks = [o["log"][i:i + PW] for i in range(0, len(o["log"]), PW)]
+            toks = [o["log"][i:i + pw] for i in range(0, len(o["log"]), pw)]
             if any(t not in own for t in toks):
                 cross = True
     base.update(to_all=to_all, to_misdelivered=bool(to_mis), got=obs, cross_stream=cross)
     # a stream without discarded / broken-out events is a chain-"none" case whatever stands before the join
-    pre = sc["pre"] if (set(seq) & {"D", "B", "XO", "XN"}) else "none"
+    pre = sc["pre"] if (set(seq) & {"D", "B", "XO", "XN", "S1d", "Od"}) else "none"
     # Output(seq, TO) is defined for any TO; the table has the placements at which something is waiting for a
     # time-out. A time-out delivered at any other position closes nothing (every open run has the processor
     # waiting), so it is ignored for the expectation -- e.g. the synthetic time-out a repaired processor could use
@@ -279,11 +330,7 @@ def analyse_stream(sc, st, res, table):
     model = items(c["model"])
     if model is None:
         model = exp
-    if sc["chain"] == "join+discard":       # the discarding action AFTER the join removes marked passed events
-        def flt(xs):
-            return [x for x in xs if not (x[0] and st["marks"][x[1][0] - 1] == "drop")]
-        exp, model = flt(exp), flt(model)
-        alt = flt(alt) if alt is not None else None
+    # (chain join+discard: the table's expectation already leaves out what the discarding action behind the join drops)
     stats["joined"] = sum(1 for x in exp if not x[0] and len(x[1]) > 1)
     ok = p_match(obs, exp, vals, sc["limit"]) or (alt is not None and p_match(obs, alt, vals, sc["limit"]))
     if ok:
@@ -306,29 +353,52 @@ def analyse_stream(sc, st, res, table):
     return recs, stats
 
 
-def run_pipeline(ctx, binary, scs, tag):
-    """Run scenarios in the harness binary; returns {id: result} and panic records for crashed scenarios."""
-    path = os.path.join(ctx.scratch, "c15_pipe_%s.ndjson" % tag)
-    out = os.path.join(ctx.scratch, "c15_pipe_%s.out" % tag)
-    with open(path, "w") as f:
-        for s in scs:
-            f.write(json.dumps({k: v for k, v in s.items() if k not in ("pre", "M", "directed", "d15_somewhere")}) + "\n")
-    if os.path.exists(out):
-        os.remove(out)
-    rc, txt = ctx.run_bin(binary, "^TestVerifC15Pipe$", env={"VERIF_CASES": path, "VERIF_OUT": out}, timeout=1500)
-    results, begun, done = {}, set(), False
-    if os.path.exists(out):
-        for line in open(out):
-            try:
-                r = json.loads(line)
-            except ValueError:
-                continue
-            if "begin" in r:
-                begun.add(r["begin"])
-            elif "done" in r:
-                done = True
-            elif "id" in r:
-                results[r["id"]] = r
+def run_pipeline(ctx, bins, scs, tag):
+    """Run scenarios in the harness binaries (one per plugin under test, concurrently); returns the merged results."""
+    groups = collections.defaultdict(list)
+    for s in scs:
+        groups[s.get("plugin", "join")].append(s)
+    outs = {}
+
+    def one(plugin, group):
+        binary = bins["plugin/action/" + plugin]
+        path = os.path.join(ctx.scratch, "c15_pipe_%s_%s.ndjson" % (tag, plugin))
+        out = os.path.join(ctx.scratch, "c15_pipe_%s_%s.out" % (tag, plugin))
+        with open(path, "w") as f:
+            for s in group:
+                f.write(json.dumps({k: v for k, v in s.items() if k not in ("pre", "M", "directed", "d15_somewhere")}) + "\n")
+        if os.path.exists(out):
+            os.remove(out)
+        rc, txt = ctx.run_bin(binary, "^TestVerifC15Pipe$", env={"VERIF_CASES": path, "VERIF_OUT": out}, timeout=1500)
+        results, begun, done = {}, set(), False
+        if os.path.exists(out):
+            for line in open(out):
+                try:
+                    r = json.loads(line)
+                except ValueError:
+                    continue
+                if "begin" in r:
+                    begun.add(r["begin"])
+                elif "done" in r:
+                    done = True
+                elif "id" in r:
+                    results[r["id"]] = r
+        outs[plugin] = (rc, txt, results, begun, done)
+    ths = [threading.Thread(target=one, args=(pl, g)) for pl, g in groups.items()]
+    for t in ths:
+        t.start()
+    for t in ths:
+        t.join()
+    rc, txt, results, begun, done = 0, "", {}, set(), True
+    for pl in groups:
+        if pl not in outs:
+            raise vlib.Infra("pipeline harness thread for %s died" % pl)
+        r = outs[pl]
+        rc = rc or r[0]
+        txt += r[1] if r[0] != 0 or not r[4] else ""
+        results.update(r[2])
+        begun |= r[3]
+        done = done and r[4]
     return rc, txt, results, begun, done
 
 
@@ -349,7 +419,8 @@ def pipeline_level(ctx, binary, scs, table):
                     raise vlib.Infra("C15 pipeline harness failed rc=%s without a panic:\n%s" % (rc1, txt1[-3000:]))
                 crashed.append(s["id"])
                 head = [l for l in txt1.splitlines() if l.startswith("panic:") or "Error" in l[:40]][:3]
-                recs.append({"level": "pipeline", "kind": "panic", "plugin": "join", "chain": s["chain"], "scenario": s["id"],
+                recs.append({"level": "pipeline", "kind": "panic", "plugin": s.get("plugin", "join"), "chain": s["chain"],
+                             "scenario": s["id"],
                              "break_before_join": s["chain"] == "break+join",
                              "action_before_join": {"discard+join": "discard", "break+join": "break"}.get(s["chain"], "none"),
                              "panic": " | ".join(head) or txt1[-600:], "scenario_def": s})
@@ -361,14 +432,15 @@ def pipeline_level(ctx, binary, scs, table):
     for sc in scs:
         sc["d15_somewhere"] = False
         for st in sc["streams"]:
-            pre = sc["pre"] if (set(st["seq"]) & {"D", "B", "XO", "XN"}) else "none"
+            pre = sc["pre"] if (set(st["seq"]) & {"D", "B", "XO", "XN", "S1d", "Od"}) else "none"
             c0 = table.get((pre, tuple(st["seq"]), sc["neg"], sc["M"], ()))
             if c0 is not None and "D15" in c0["dev"]:
                 sc["d15_somewhere"] = True
     for sid, res in sorted(results.items()):
         sc = byid[sid]
         if res.get("stop_hung"):
-            recs.append({"level": "pipeline", "kind": "stop_hung", "plugin": "join", "chain": sc["chain"], "scenario": sid,
+            recs.append({"level": "pipeline", "kind": "stop_hung", "plugin": sc.get("plugin", "join"), "chain": sc["chain"],
+                         "scenario": sid,
                          "break_before_join": sc["chain"] == "break+join", "scenario_def": sc})
         for st in sc["streams"]:
             streams += 1
@@ -443,9 +515,10 @@ def run(ctx):
                       overrides={"MaxLen1": "4", "MaxLenPre": "3"} if quick else None)
     # spec mutant: the selector of a busy action is evaluated -> TLC must reject it (its counterexamples are the directed
     # selector scenarios of the pipeline-level runs)
-    rm = ctx.tlc("Join", "Join_mutsel.cfg", timeout=300, deadlock=False, name="Join/mutant M_BusyIgnoresSelector off")
-    if rm.violated != "StatementOK":
-        raise vlib.Infra("spec mutant M_BusyIgnoresSelector=FALSE was not rejected by StatementOK: %s" % rm.violated)
+    for cfgname, mech in (("Join_mutsel.cfg", "M_BusyIgnoresSelector"), ("Join_mutprop.cfg", "M_PropagateResetsBusyFirst")):
+        rm = ctx.tlc("Join", cfgname, timeout=300, deadlock=False, name="Join/mutant %s off" % mech)
+        if rm.violated != "StatementOK":
+            raise vlib.Infra("spec mutant %s=FALSE was not rejected by StatementOK: %s" % (mech, rm.violated))
     rk = ctx.tlc_expect_ok("K8sMultiline", "K8sMultiline_quick.cfg" if quick else "K8sMultiline_thorough.cfg",
                            timeout=1500, deadlock=False, overrides=ksw)
     ctx.tlc_expect_ok("K8sMultiline", "K8sMultiline_ideal.cfg", timeout=600, deadlock=False,
@@ -497,7 +570,7 @@ def run(ctx):
             groups[(c["pre"], bool(c["neg"][0]), c["M"])].append(c)
     nsc = 70 if quick else 700
     scs = directed_scenarios(0) + make_scenarios(ctx, groups, nsc, first_id=100)
-    precs, nruns, nstreams, pstats, crashed = pipeline_level(ctx, bins["plugin/action/join"], scs, table)
+    precs, nruns, nstreams, pstats, crashed = pipeline_level(ctx, bins, scs, table)
     recs += precs
 
     ctx.classify(recs)
@@ -560,7 +633,7 @@ def replay(ctx, bins, jcases):
                 recs.append(rec)
             ctx.evaluations += r["executed"]
     if scs:
-        precs, nruns, nstreams, _, _ = pipeline_level(ctx, bins["plugin/action/join"], list(scs.values()), table)
+        precs, nruns, nstreams, _, _ = pipeline_level(ctx, bins, list(scs.values()), table)
         recs += precs
         ctx.evaluations += nstreams
     ctx.traces_validated = ctx.evaluations
